@@ -582,7 +582,7 @@ def plan(E, pid, mode, lo, hi, tier):
             for cyc in _cycles(len(sib)):
                 for scrib in (0, 1):      # results kept (and looked at again at the end) / overwritten by the caller
                     hs.append([(sib[i], scrib) for i in cyc])
-            if tier == "thorough":                                    # every ordered triple as a history of its own
+            if tier == "thorough" and not _slow(E[sib[0]]["label"]):    # every ordered triple as a history of its own
                 for a in sib:
                     for a2 in sib:
                         for b in sib:
@@ -606,16 +606,14 @@ def plan(E, pid, mode, lo, hi, tier):
             if pid not in E[a]["pids"]:
                 # a prefix from another function family: a window that moves with the prefix (every call follows many
                 # prefixes); a prefix of this property's own functions is followed by all of them
-                if tier == "quick":         # window of six cost units, a 20-40 ms function counting three
-                    w, cost = [], 0
-                    for b in rot:
-                        cost += 3 if _slow(E[b]["label"]) else 1
-                        w.append(b)
-                        if cost >= QUICK_WINDOW:
-                            break
-                    rot = w
-                else:
-                    rot = rot[:QUICK_WINDOW * len(keep_b)]
+                # window of six (thorough: twelve) cost units, a 20-40 ms function counting three
+                w, cost = [], 0
+                for b in rot:
+                    cost += 3 if _slow(E[b]["label"]) else 1
+                    w.append(b)
+                    if cost >= QUICK_WINDOW * (1 if tier == "quick" else 2):
+                        break
+                rot = w
             for scrib in ((1,) if tier == "quick" else (0, 1)):
                 hs.append([(a, scrib)] + [(b, 1 if tier == "quick" else 1 - scrib) for b in rot])
     return hs
@@ -731,8 +729,8 @@ def case_list(pid, tier):
     own_cost = sum(3 if _slow(e["label"]) else 1 for e in E if pid in e["pids"] and e["v"] == "base")
     lo, acc = 0, 0
     for n, a in enumerate(allA):
-        acc += own_cost if pid in E[a]["pids"] else QUICK_WINDOW
-        if acc >= 240 or n == len(allA) - 1:
+        acc += own_cost * (1 if tier == "quick" else 8) if pid in E[a]["pids"] else QUICK_WINDOW * (1 if tier == "quick" else 4)
+        if acc >= (240 if tier == "quick" else 2400) or n == len(allA) - 1:
             out.append({"k": "history", "mode": "cross", "lo": lo, "hi": n + 1, "tier": tier})
             lo, acc = n + 1, 0
     E = entries()
